@@ -114,6 +114,31 @@ def make_silent(frontend, framing, why):
     return silent
 
 
+def make_hosted_ignore(frontend, framing, mode):
+    """ignore_missing_slaves only silences requests to units the server does NOT host: with the option on, a request to a
+    hosted unit (any unit id in single-context mode; the registered one in multi-unit mode) still gets its one response"""
+    def hosted_ignore(t: bytes, u: int, b1: bytes, st: bytes) -> bool:
+        assume(len(t) == 2 and len(b1) == 4 and len(st) == 8)
+        assume(1 <= u <= 247)
+        slave, regs = _ctx(st)
+        if mode == "single":
+            ctx = SL.server_context(slave, single=True)
+        else:
+            ctx = SL.server_context(None, single=False, units=[(u, slave)])
+        r = SL.drive(frontend, framing, ctx, [adu.ref_adu_clean(framing, bytes([6]) + b1, u, t)], ignore_missing=True)
+        if r.escaped is not None:
+            explain("exception escaped: %r", r.escaped)
+            return False
+        pdu, newvals = regfile.model(6, b1, (0, list(regs)), True)
+        if len(r.written) != 1:
+            explain("%d frames written for one request to a hosted unit (ignore_missing_slaves on, %s context)", len(r.written), mode)
+            return False
+        if not same(r.written[0], adu.ref_adu_clean(framing, pdu, u, t), "response frame"):
+            return False
+        return same(list(slave.store["h"].values), newvals, "holding registers after the request")
+    return hosted_ignore
+
+
 def make_after_broadcast(frontend, framing):
     """a broadcast write (no response) followed by an ordinary request on the same connection: the second is answered"""
     def after_broadcast(t: bytes, u: int, b1: bytes, b2: bytes, st: bytes) -> bool:
@@ -285,6 +310,9 @@ def obligations(tier):
             out.append(Obl("silent.%s.%s.%s" % (fe, fr, why), make_silent(fe, fr, why), timeout=T, contracts=CONTRACTS[fr], lemmas=LEMMAS[fr],
                            whole_finding="KF-twisted-udp-listen-only-response" if (fe, why) == ("twisted-udp", "listen-only") else None,
                            bounds="%s front-end, %s framing: one request for which no response is due (%s); contents symbolic" % (fe, fr, why)))
+        for mode in ("single", "multi"):
+            out.append(Obl("hosted-ignore.%s.%s.%s" % (fe, fr, mode), make_hosted_ignore(fe, fr, mode), timeout=T, contracts=CONTRACTS[fr], lemmas=LEMMAS[fr],
+                           bounds="%s front-end, %s framing, ignore_missing_slaves on, %s context hosting the addressed unit (unit id 1..247, tid, FC6 body, 4 registers symbolic): exactly one response" % (fe, fr, mode)))
         if fe in ("sync-tcp", "sync-serial", "asyncio-tcp"):
             out.append(Obl("after-broadcast.%s.%s" % (fe, fr), make_after_broadcast(fe, fr), timeout=T, contracts=CONTRACTS[fr], lemmas=LEMMAS[fr],
                            bounds="%s front-end with broadcast_enable: a unit-0 write then an FC3 request to the hosted unit on the same connection (two reads); contents symbolic" % fe))
